@@ -2510,6 +2510,13 @@ class Interp:
             return MockObj({"read": PyFunc(lambda I_, path=path: vfs[path]),
                             "readlines": PyFunc(lambda I_, path=path: Lst(vfs[path].splitlines(True)))}, "file:" + path)
         if n in ("math.isclose",):
+            # tolerance-based closeness is abstracted to exact equality of reals; the use is counted, so that a rule
+            # whose property compares exactly can tell (an explicit zero tolerance is exact and not counted)
+            def _zero(k, dflt):
+                v = kwargs.get(k, dflt)
+                return isinstance(v, Lin) and v.is_const() and v.const == 0 if not isinstance(v, (int, float)) else v == 0
+            if not (_zero("rel_tol", 1) and _zero("abs_tol", 0)):
+                self.tolerance_calls = getattr(self, "tolerance_calls", 0) + 1
             return self.equal(args[0], args[1], node)
         if n == "copy.deepcopy":
             return self.deepcopy(args[0])
